@@ -101,6 +101,19 @@ Definition read_restore (crc : list N -> N) (fx : bool) (d : disk) : disk * rres
        | _ => (d, if fx then RErr ECorrupt else ROk (blk d))
        end.
 
+(* the same through a hashmap opened read-only (readWrite=false: what every non-writing
+   transaction uses; segment file opened O_RDONLY).  restoreFromCow copies the backup into the
+   buffer, attempts the write-back, the write fails on the read-only handle and that failure is
+   ignored: the restored image is RETURNED, the file is NOT repaired.  deleteCow of a stale backup
+   is a plain file removal and still happens. *)
+Definition read_restore_ro (crc : list N -> N) (fx : bool) (d : disk) : disk * rres :=
+  if negb (length (blk d) =? BSZ)%nat then (d, RErr EEof)
+  else if valid crc (blk d) then (mkDisk (blk d) None, ROk (blk d))
+  else match check_cow crc (cow d) with
+       | CowValid c => (d, ROk c)
+       | _ => (d, if fx then RErr ECorrupt else ROk (blk d))
+       end.
+
 (* writeBlockRegionPayload: copy the 62-byte record into the buffer, re-checksum *)
 Definition new_block (crc : list N -> N) (buf : list N) (off : nat) (data : list N) : list N :=
   marshal crc (splice (firstn DSZ buf) off data).
@@ -226,6 +239,13 @@ Inductive gres := GFound (slot : list N) | GNotFound | GErr (e : rerr).
 (* registry Get of one id whose table has a single segment file *)
 Definition reg_get (crc : list N -> N) (fx : bool) (d : disk) (id : list N) (ideal : nat) : disk * gres :=
   match read_restore crc fx d with
+  | (d1, RErr EEof) => (d1, GNotFound)
+  | (d1, RErr e) => (d1, GErr e)
+  | (d1, ROk buf) => (d1, match find_read buf id ideal with Some s => GFound s | None => GNotFound end)
+  end.
+(* registry Get through a read-only registry *)
+Definition reg_get_ro (crc : list N -> N) (fx : bool) (d : disk) (id : list N) (ideal : nat) : disk * gres :=
+  match read_restore_ro crc fx d with
   | (d1, RErr EEof) => (d1, GNotFound)
   | (d1, RErr e) => (d1, GErr e)
   | (d1, ROk buf) => (d1, match find_read buf id ideal with Some s => GFound s | None => GNotFound end)
